@@ -371,6 +371,9 @@ struct KnownFinding {
     encoding: Option<String>,
     #[serde(default)]
     detail_contains: Option<String>,
+    /// the minimised case must contain a file with at least this many directly nested `begin`s
+    #[serde(default)]
+    min_nesting: Option<usize>,
     #[serde(default)]
     what: String,
 }
@@ -412,6 +415,12 @@ fn known_matches(k: &KnownFinding, r: &ReplayFile) -> bool {
     if let Some(e) = &k.encoding {
         let cfg = r.case.configured_encoding().name().to_lowercase();
         if cfg != e.to_lowercase() {
+            return false;
+        }
+    }
+    if let Some(n) = k.min_nesting {
+        let deepest = r.case.files.iter().map(|f| case::max_nesting(&f.bytes)).max().unwrap_or(0);
+        if deepest < n {
             return false;
         }
     }
